@@ -38,7 +38,12 @@ def decide(pid, tier, scratch, crate, metas, cwd=None, timeout_s=900, replay_kw=
         log("  harness %-42s %-10s checks=%-6d failed=%d covers=%d/%d time=%s" % (
             h, r["status"], r["checks"], r["failed"], r["covers_sat"], r["covers_total"], r["time_s"]))
         if r["status"] == "SUCCESSFUL":
-            if r["covers_total"] and r["covers_sat"] < r["covers_total"]:
+            need = metas[h].get("min_covers_sat")
+            if need is not None:
+                # harnesses run from enumerated states: only some witnesses are reachable per state
+                if r["covers_sat"] < need:
+                    inconclusive.append((h, "fewer vacuity witnesses satisfiable than required (%d < %d of %d)" % (r["covers_sat"], need, r["covers_total"])))
+            elif r["covers_total"] and r["covers_sat"] < r["covers_total"]:
                 inconclusive.append((h, "vacuity witness not satisfiable (%d/%d)" % (r["covers_sat"], r["covers_total"])))
             want = metas[h].get("covers")
             if want is not None and r["covers_total"] < want:
@@ -108,7 +113,8 @@ def finish(pid, tier, t0, recs, violations, known, inconclusive, static, extra_c
     checks = 0
     solver_time = 0.0
     for h, r in recs.items():
-        ok = r["status"] == "SUCCESSFUL" and r["covers_total"] > 0 and r["covers_sat"] == r["covers_total"]
+        need = r.get("meta", {}).get("min_covers_sat")
+        ok = r["status"] == "SUCCESSFUL" and r["covers_total"] > 0 and (r["covers_sat"] == r["covers_total"] if need is None else r["covers_sat"] >= need)
         if ok:
             nontrivial += 1
         checks += r["checks"]
